@@ -1179,7 +1179,12 @@ mod inflight {
             cands.push((slot.tid == me, gen, f(p)));
         }
         cands.sort_by_key(|c| !c.0);
-        let what = if sig == libc::SIGABRT { "SIGABRT" } else { "a fatal signal" };
+        let what = match sig {
+            libc::SIGABRT => "SIGABRT",
+            libc::SIGSEGV => "SIGSEGV: a memory fault",
+            libc::SIGBUS => "SIGBUS: a memory fault",
+            _ => "a fatal signal",
+        };
         let reason = format!("the check process was aborted ({what}) by the code under test while this case was being evaluated");
         if let Mode::Replay { path, .. } = &session.mode {
             println!("VIOLATION property={} replay={}", session.id, path.display());
@@ -1213,6 +1218,11 @@ mod inflight {
             sa.sa_flags = libc::SA_ONSTACK;
             libc::sigemptyset(&mut sa.sa_mask);
             libc::sigaction(libc::SIGABRT, &sa, std::ptr::null_mut());
+            // memory faults raised by the code under test (a use-after-free, a wild pointer): attributed to the cases in
+            // flight exactly like an abort. (Replaces std's stack-overflow reporter: an overflow still ends here.)
+            for sig in [libc::SIGSEGV, libc::SIGBUS, libc::SIGILL, libc::SIGFPE] {
+                libc::sigaction(sig, &sa, std::ptr::null_mut());
+            }
         }
     }
 }
